@@ -239,6 +239,44 @@ func (r *crashRecording) junkFor(kind, pick int, raw []byte, imgLen int) (junk [
 	return raw, len(raw) > 0
 }
 
+// sweepLengths are the junk-tail lengths of the tail sweep: the neighbourhoods
+// of k*B for power-of-two block sizes B (a backward scan that works in blocks
+// can only go wrong where the root record's end markers meet a block boundary,
+// i.e. at tail lengths just below a multiple of its block size).
+func sweepLengths() []int {
+	var ls []int
+	for _, b := range []int{4096, 8192, 16384, 32768, 65536} {
+		for k := 1; k <= 2; k++ {
+			for l := k*b - 72; l <= k*b+24; l++ {
+				ls = append(ls, l)
+			}
+		}
+	}
+	return ls
+}
+
+// checkTail opens the complete recorded file followed by n junk bytes (fill
+// repeated): the junk holds no root record, so the store must come up in the
+// state of the last flush however long the tail is.
+func (r *crashRecording) checkTail(base Case, n int, fill []byte) (*Violation, map[string]int) {
+	img := append([]byte{}, r.imageAt(len(r.writes), 0)...)
+	exp := r.expectedAt(len(r.writes), 0)
+	if len(fill) == 0 {
+		fill = []byte{0}
+	}
+	for i := 0; i < n; i++ {
+		img = append(img, fill[i%len(fill)])
+	}
+	c := Case{Cfg: base.Cfg}
+	c.Cfg.Profile = "C03-crash"
+	v, ev := Run(c, RunOpts{Prop: "C03", InitImage: img, InitDurable: exp, NoLog: true})
+	if v != nil {
+		v.Sig = "tail:" + v.Sig
+		v.Msg = fmt.Sprintf("complete file (%d bytes, %d flushes) followed by %d junk bytes that contain no root record: %s", len(img)-n, len(exp), n, v.Msg)
+	}
+	return v, ev
+}
+
 // RunCrashCase replays one saved crash case: Cfg.Extra = [i, j], the
 // continuation is Cfg.Workers[0].
 func RunCrashCase(c Case) *Violation {
@@ -252,6 +290,10 @@ func RunCrashCase(c Case) *Violation {
 	}
 	if len(c.Cfg.Extra) < 2 {
 		return nil
+	}
+	if c.Cfg.Note == "tail" {
+		v, _ = rec.checkTail(hist, c.Cfg.Extra[1], c.Cfg.Junk)
+		return v
 	}
 	i, j := c.Cfg.Extra[0], c.Cfg.Extra[1]
 	if i > len(rec.writes) || (i < len(rec.writes) && j > len(rec.writes[i].Data)) {
